@@ -176,17 +176,18 @@ func c07Reference(msg []byte, entries []trustEntry, useList bool) c07Expect {
 			return c07Expect{fail: true, why: "Verifiers returned a verifier of another identity"}
 		}
 		k := fmt.Sprintf("%s+%08x", s.Name, s.Hash)
-		if seenKnown[k] {
-			continue // repeated signature by one key: ignored
-		}
-		seenKnown[k] = true
 		good := e.verdict
 		if e.key != nil {
 			good = len(s.Sig) == ed25519.SignatureSize && ed25519.Verify(e.key.Pub, []byte(pn.Text), s.Sig)
 		}
 		if !good {
+			// "for each signature in the message": a repeated signature line of a known key is no exception
 			return c07Expect{fail: true, why: fmt.Sprintf("known key %s has a bad signature", k)}
 		}
+		if seenKnown[k] {
+			continue // a further good signature by the same key is listed once
+		}
+		seenKnown[k] = true
 		exp.sigs = append(exp.sigs, note.Signature{Name: s.Name, Hash: s.Hash, Base64: s.Base64})
 	}
 	if len(exp.sigs) == 0 {
